@@ -221,6 +221,7 @@ func TestC19OOB(t *testing.T) {
 				cl = append(cl, n)
 			}
 		}
+		addIf(completed, "completed")
 		addIf(handled > 0, "handler_invoked")
 		addIf(oversize > 0, "oversize_refused")
 		addIf(lostOOB > 0, "oob_lost")
